@@ -133,7 +133,12 @@ fn res_json(r: Result<(Allocator, chia_consensus::conditions::SpendBundleConditi
             let o = OwnedSpendBundleConditions::from(&a, c);
             json!({"ok": true, "r": summary_json(&o)})
         }
-        Err(e) => json!({"ok": false, "err": err_code(&e), "errname": err_name(&e)}),
+        Err(e) => {
+            // is this a cost / interpreter-resource exhaustion (the only legacy-only failure C07 permits)?
+            let n = err_name(&e);
+            let resource = ["CostExceeded", "OutOfMemory", "TooManyPairs", "TooManyAtoms", "ValueStackLimitReached", "EnvironmentStackLimitReached"].iter().any(|k| n.contains(k));
+            json!({"ok": false, "err": err_code(&e), "errname": n, "resource": resource})
+        }
     }
 }
 
